@@ -1,7 +1,7 @@
 import Harper.Basic.Proto
 import Harper.Model.Stats
 /-! Driver ops of the statistics-log model (C19). -/
-namespace Harper.Driver
+namespace Harper.Driver.Stats
 open Harper.Proto Harper.Stats
 
 /-- `esc <cps>` → `ok <cps of the JSON string literal, quotes included>` -/
@@ -88,4 +88,4 @@ def handleSum (args : List String) : String :=
       ++ s.misspelled.map (fun p => s!"{showWord p.1}:{p.2}"))
   | none => "bad-op"
 
-end Harper.Driver
+end Harper.Driver.Stats
